@@ -172,7 +172,8 @@ def run(tier):
             ("dfs_wwrr", {"progs": PROGS["F_WWRR"], "preempt": 2, "max_runs": 30000, "spur": 0, "eintr": 0, "weak": 0}),
             ("rnd4", {"progs": [WAU + RAU, RAU + WAU, TWAU + RAU, RAU + TRAU], "runs": 4000, "spur": 1, "eintr": 1, "weak": 1}),
         ]
-    return LC.run(tier, tours, configs, configs_if_differs, specs)
+    stress = {"threads": 4, "sections": 1500} if tier == "quick" else {"threads": 8, "sections": 10000}
+    return LC.run(tier, tours, configs, configs_if_differs, specs, stress=stress)
 
 
 def replay(path):
